@@ -257,3 +257,58 @@ def e2e(ctx: Ctx, root: Path) -> None:
         if reported != want or not L.clean_verdict(rc, out, err):
             ctx.report("amend:e2e", f"with cwd {cwd.name} and --config-file {cfg} the files still reported are {sorted(os.path.relpath(x, root) for x in reported)}",
                        {"cwd": str(cwd), "argv": args, "stdout": out[-600:], "stderr": err[-600:]})
+    implicit_config(ctx, root)
+
+
+def implicit_config(ctx: Ctx, root: Path) -> None:
+    """No --config-file: whichever pyproject.toml turns out to be in use (told by a marker: a global
+    ignore of FURB114 that only that file contains), its amend paths are resolved against ITS directory."""
+    proj = root / "implicit"
+    body = "x = int(0)\ny = not not x\n"
+    layout = ["src/e1.py", "src/util/e2.py", "src2/e3.py", "sub/e4.py", "sub/src/e5.py", "sub/deep/e6.py", "sub/deep/src/e7.py", "e8.py"]
+    for f in layout:
+        (proj / f).parent.mkdir(parents=True, exist_ok=True)
+        (proj / f).write_text(body)
+    top = '[tool.refurb]\nignore = ["FURB114"]\n[[tool.refurb.amend]]\npath = "src"\nignore = ["FURB123"]\n'
+    inner = '[tool.refurb]\nignore = ["FURB114"]\n[[tool.refurb.amend]]\npath = "deep"\nignore = ["FURB123"]\n'
+    scenarios = [
+        ("cwd-is-project-root", {"pyproject.toml": top}, proj),
+        ("cwd-is-subfolder-without-config", {"pyproject.toml": top}, proj / "sub"),
+        ("cwd-two-levels-down", {"pyproject.toml": top}, proj / "sub" / "deep"),
+        ("cwd-subfolder-with-its-own-config", {"pyproject.toml": top.replace("FURB114", "FURB999"), "sub/pyproject.toml": inner}, proj / "sub"),
+        ("cwd-below-a-subfolder-config", {"pyproject.toml": top.replace("FURB114", "FURB999"), "sub/pyproject.toml": inner}, proj / "sub" / "deep"),
+    ]
+    for label, configs, cwd in scenarios:
+        for old in proj.rglob("pyproject.toml"):
+            old.unlink()
+        for rel, text in configs.items():
+            (proj / rel).write_text(text)
+        args = [os.path.relpath(proj / f, cwd) for f in layout] + ["--quiet"]
+        rc, out, err = L.cli(args, cwd=str(cwd))
+        seen = {(os.path.relpath(os.path.normpath(os.path.join(cwd, l.split(":")[0])), proj), code)
+                for l in out.splitlines() for code in ("FURB123", "FURB114") if f"[{code}]" in l}
+        marker_files = {f for f, c in seen if c == "FURB114"}
+        ctx.case(("implicit-config", label), nontrivial=True, sample={"cwd": os.path.relpath(cwd, proj), "marker_reported_for": len(marker_files)})
+        ctx.count("cli-implicit-config")
+        if not L.clean_verdict(rc, out, err):
+            ctx.report(f"amend:implicit:{label}:crash", f"refurb without --config-file in {label} ends with status {rc}: {err[-300:]}", {"cwd": str(cwd), "argv": args})
+            continue
+        # which config file is in use: the one whose marker took effect (none: every file keeps both diagnostics)
+        in_use = [rel for rel, text in configs.items() if "FURB114" in text]
+        if marker_files == set(layout):
+            want = set(layout)                       # no config in use
+            using = None
+        elif not marker_files:
+            using = in_use[0]
+            base = os.path.dirname(using)
+            amend_dir = os.path.normpath(os.path.join(base, "src" if using == "pyproject.toml" else "deep"))
+            want = {f for f in layout if not (f == amend_dir or f.startswith(amend_dir + "/"))}
+        else:
+            ctx.report(f"amend:implicit:{label}:marker", f"{label}: the global ignore of the config file applies to some files only: {sorted(marker_files)} still reported",
+                       {"cwd": str(cwd), "argv": args, "stdout": out[-600:]})
+            continue
+        got = {f for f, c in seen if c == "FURB123"}
+        if got != want:
+            ctx.report(f"amend:implicit:{label}", f"{label}: config file in use is {using or 'none'}; FURB123 should remain for {sorted(want)} but remains for {sorted(got)}",
+                       {"cwd": os.path.relpath(cwd, proj), "configs": configs, "files": layout, "file_body": body, "argv": args, "stdout": out[-800:],
+                         "rule": "amend paths resolve against the directory of the config file in use"})
